@@ -126,7 +126,12 @@ func (t *setTarget[V]) line(caseID int, o seqOp) callResult {
 	cr := guarded(opTimeout, func() {
 		switch o.op {
 		case "make":
-			t.set = t.newSet(o.vs)
+			if len(o.alias) > 4 && o.alias[:4] == "set:" {
+				// constructed from a Set that is ordered by another collator (the new set has the default one)
+				t.set = col.Set[V](notation).MakeFromSequence(t.newSetWith(o.alias[4:], o.vs))
+			} else {
+				t.set = t.newSet(o.vs)
+			}
 		case "addValue":
 			t.set.AddValue(c.from(arg(0)))
 		case "addValues":
@@ -290,6 +295,27 @@ func runC02Type[V any](tier string, rng Rng, out *Out, c Codec[V], u []int, outs
 				t := &setTarget[V]{c: c, rk: rk, out: out}
 				t.line(*caseID, seqOp{op: "make", vs: shuffled(rng, state, mask%2 == 1)})
 				t.line(*caseID, o)
+			}
+		}
+		// a Set constructed from a Set that another collator orders, then used
+		if rk == "nat" {
+			for mask := 0; mask < nsub; mask++ {
+				state := subsetOf(u, mask)
+				for _, src := range []string{"rev", "nat"} {
+					var ops []seqOp
+					ops = append(ops, seqOp{op: "asArray"}, seqOp{op: "iterate"})
+					for _, v := range u {
+						ops = append(ops, seqOp{op: "containsValue", a: []int{v}}, seqOp{op: "getIndex", a: []int{v}}, seqOp{op: "addValue", a: []int{v}},
+							seqOp{op: "removeValue", a: []int{v}})
+					}
+					for _, o := range ops {
+						*caseID++
+						t := &setTarget[V]{c: c, rk: rk, out: out}
+						t.line(*caseID, seqOp{op: "make", alias: "set:" + src, vs: shuffled(rng, state, false)})
+						t.line(*caseID, o)
+						t.line(*caseID, seqOp{op: "asArray"})
+					}
+				}
 			}
 		}
 		// random histories over a larger domain
